@@ -79,8 +79,14 @@ def _copy_io(m: h.Module, unit: h.Instantiable) -> dict:
     Returns them as a dictionary keyed by name, which can also serve as the connections to an instance of `unit`."""
     from .instantiable import io
 
+    ports = io(unit)
+    if isinstance(unit, h.Module) and unit._pre_flattening_io is not None:
+        # An already-elaborated unit. Its IO as declared, bundle-valued ports included,
+        # is what Instances in new, un-elaborated parents connect to.
+        ports = unit._pre_flattening_io
+
     rv = dict()
-    for p in io(unit).values():
+    for p in ports.values():
         if isinstance(p, h.BundleInstance):
             # Bundle instances are not deep-copyable; create a new one of the same type and orientation
             p = h.BundleInstance(
